@@ -20,7 +20,7 @@ type c12 struct{}
 func (c12) ID() string    { return "C12" }
 func (c12) Level() string { return "exploration" }
 func (c12) Rule() string {
-	return "10 path-bearing attribute kinds (build context, additional context, env_file, label_file, bind source in short and long syntax, secret file, config file, develop watch path, bind device of a local volume) x 13 path shapes (./x, x/y, ../x, ., /abs, ~/x, ~, C:\\x, \\\\srv\\share, https://, git@, docker-image://, ssh://) x 9 origins (main, override, include depth 1, include depth 2, extended base in another directory, extended base used from an included file, extended base / included file in a sibling directory whose name starts with the project directory's name) x 3 working-directory shapes, with resolution on (and off for main/override); expected value from the anchoring reference (Appendix A.5); plus the corpus documents with `./p` placed in every non-path string position (nothing may be anchored), and idempotence (render, reload, compare). distinct = distinct (attribute, shape, origin) outcomes"
+	return "10 path-bearing attribute kinds (build context, additional context, env_file, label_file, bind source in short and long syntax, secret file, config file, develop watch path, bind device of a local volume) x 13 path shapes (./x, x/y, ../x, ., /abs, ~/x, ~, C:\\x, \\\\srv\\share, https://, git@, docker-image://, ssh://) x 9 origins (main, override, include depth 1, include depth 2, extended base in another directory, extended base used from an included file, extended base / included file in a sibling directory whose name starts with the project directory's name) x 3 working-directory shapes, and again with the service and resources named with an x- prefix, with resolution on (and off for main/override); expected value from the anchoring reference (Appendix A.5); plus the corpus documents with `./p` placed in every non-path string position (nothing may be anchored), and idempotence (render, reload, compare). distinct = distinct (attribute, shape, origin) outcomes"
 }
 func (c12) Assumptions() []string {
 	return []string{
@@ -43,8 +43,12 @@ type c12attr struct {
 
 func yq(s string) string { return "'" + strings.ReplaceAll(s, "'", "''") + "'" }
 
+// c12pre is put in front of the names of the service and of the resources of the case being run ("" or "x-": a
+// resource may be named like an extension key and is a resource all the same).
+var c12pre = ""
+
 func c12attrs() []c12attr {
-	svc := func(p *types.Project) types.ServiceConfig { return p.Services["s"] }
+	svc := func(p *types.Project) types.ServiceConfig { return p.Services[c12pre+"s"] }
 	return []c12attr{
 		{name: "build.context", context: true, doc: func(v string) (string, string) { return "    build: {context: " + yq(v) + "}\n", "" },
 			get: func(p *types.Project) string { return svc(p).Build.Context }},
@@ -62,15 +66,15 @@ func c12attrs() []c12attr {
 			return "    image: i\n    volumes:\n      - {type: bind, source: " + yq(v) + ", target: /t}\n", ""
 		}, get: func(p *types.Project) string { return svc(p).Volumes[0].Source }},
 		{name: "secret.file", winAbsOK: true, doc: func(v string) (string, string) { return "    image: i\n", "secrets:\n  sec: {file: " + yq(v) + "}\n" },
-			get: func(p *types.Project) string { return p.Secrets["sec"].File }},
+			get: func(p *types.Project) string { return p.Secrets[c12pre+"sec"].File }},
 		{name: "config.file", winAbsOK: true, doc: func(v string) (string, string) { return "    image: i\n", "configs:\n  cfg: {file: " + yq(v) + "}\n" },
-			get: func(p *types.Project) string { return p.Configs["cfg"].File }},
+			get: func(p *types.Project) string { return p.Configs[c12pre+"cfg"].File }},
 		{name: "develop.watch.path", doc: func(v string) (string, string) {
 			return "    image: i\n    develop:\n      watch:\n        - {path: " + yq(v) + ", action: rebuild}\n", ""
 		}, get: func(p *types.Project) string { return svc(p).Develop.Watch[0].Path }},
 		{name: "volume.device", winAbsOK: true, doc: func(v string) (string, string) {
 			return "    image: i\n", "volumes:\n  data:\n    driver: local\n    driver_opts: {type: none, o: bind, device: " + yq(v) + "}\n"
-		}, get: func(p *types.Project) string { return p.Volumes["data"].DriverOpts["device"] }},
+		}, get: func(p *types.Project) string { return p.Volumes[c12pre+"data"].DriverOpts["device"] }},
 	}
 }
 
@@ -117,7 +121,15 @@ func (c12) Run(c *core.Ctx) {
 						}
 						a, sh, origin, wd, resolve := a, sh, origin, wd, resolve
 						id := fmt.Sprintf("%s/%s/%s/wd%d/r%v", a.name, sh.v, origin, wi, resolve)
-						c.Do(id, func() core.Outcome { return c12case(id, a, sh, origin, wd, resolve, home) })
+						c.Do(id, func() core.Outcome { c12pre = ""; return c12case(id, a, sh, origin, wd, resolve, home) })
+						if wi == 0 && resolve {
+							// the same with the service and the resources named like extension keys
+							c.Do(id+"/x-names", func() core.Outcome {
+								c12pre = "x-"
+								defer func() { c12pre = "" }()
+								return c12case(id+"/x-names", a, sh, origin, wd, resolve, home)
+							})
+						}
 					}
 				}
 			}
@@ -242,6 +254,12 @@ func c12case(id string, a c12attr, sh c12shape, origin, wd string, resolve bool,
 		files[wd+"/sub/inc.yaml"] = "services:\n  s:\n    extends: {file: ../../lib/base.yaml, service: s}\n"
 		files["lib/base.yaml"] = svcDoc
 		originDir = "lib"
+	}
+	if c12pre != "" {
+		r := strings.NewReplacer("\n  s:\n", "\n  "+c12pre+"s:\n", "\n  sec: ", "\n  "+c12pre+"sec: ", "\n  cfg: ", "\n  "+c12pre+"cfg: ", "\n  data:\n", "\n  "+c12pre+"data:\n", "service: s}", "service: "+c12pre+"s}")
+		for k, v := range files {
+			files[k] = r.Replace(v)
+		}
 	}
 	s := &Scn{Files: files, Main: main, WD: wd}
 	if !resolve {
